@@ -7,6 +7,8 @@ import (
 	"compress/gzip"
 	"encoding/json"
 	"fmt"
+	"hash/crc32"
+	"io"
 	"math/rand"
 	"os"
 	"os/exec"
@@ -71,14 +73,19 @@ type scn struct {
 	TmpMode string // same | cross | bad | explicit
 	Fail    string // - | reader | short | 404 | corrupt | blocked
 	Var     string // writer specific variant
+	Srv     string // fetch: what the server / the connection does per attempt (download.go), "-" = derived from Fail
 	Seed    int64
 	K       int // 0 = run to completion, k > 0 = kill before the k-th mutating call
 	Pre     int // history: the same operation was already run on this sandbox and killed before its Pre-th mutating call
 }
 
 func (s scn) line() string {
-	return fmt.Sprintf("run id=%d w=%s old=%s oldlen=%d newlen=%d perm=%s tmp=%s fail=%s var=%s seed=%d pre=%d k=%d",
-		s.ID, s.Writer, s.Old, s.OldLen, s.NewLen, s.Perm, s.TmpMode, s.Fail, s.Var, s.Seed, s.Pre, s.K)
+	srv := s.Srv
+	if srv == "" {
+		srv = "-"
+	}
+	return fmt.Sprintf("run id=%d w=%s old=%s oldlen=%d newlen=%d perm=%s tmp=%s fail=%s var=%s srv=%s seed=%d pre=%d k=%d",
+		s.ID, s.Writer, s.Old, s.OldLen, s.NewLen, s.Perm, s.TmpMode, s.Fail, s.Var, srv, s.Seed, s.Pre, s.K)
 }
 
 func parseScn(line string) (scn, error) {
@@ -113,6 +120,8 @@ func parseScn(line string) (scn, error) {
 			s.Fail = v
 		case "var":
 			s.Var = v
+		case "srv":
+			s.Srv = v
 		case "seed":
 			s.Seed = n
 		case "k":
@@ -150,6 +159,9 @@ type built struct {
 	specPath string
 	dirs     []string // to remove afterwards
 	destLine string
+	dlLine   string // download scenarios: entry point, verification and planned responses, for the model
+	upLine   string // unpack scenarios: what the archive is like, for the model
+	progLine string // the program line when it depends on what was built
 	oldObs   string // content-only form
 	newObs   string
 }
@@ -336,13 +348,31 @@ func build(s scn, base string) (*built, error) {
 		sp.Params["identifier"] = id
 		sp.Params["version"] = "1.0.0"
 		sp.Params["fail"] = s.Fail
+		plan := s.Srv
+		if plan == "" || plan == "-" {
+			switch s.Fail {
+			case "short":
+				plan = "len-rst@half"
+			case "404":
+				plan = "st404"
+			default:
+				plan = "ok"
+			}
+		}
+		sp.Params["srv"] = plan
+		api := "updates"
+		if s.Var == "getfile" {
+			api = "getfile"
+		}
+		sp.Params["api"] = api
 		mainPath := root + "/dst/" + updater.GetVersionedPath(id, "1.0.0")
 		sp.Dest = mainPath
 		tmpdirs = append(tmpdirs, root+"/dst/tmp")
 		if s.Old != "absent" || s.Var == "missing-sig" {
 			_ = os.MkdirAll(filepath.Dir(sp.Dest), 0o755)
 		}
-		if s.Var == "signed-main" || s.Var == "signed-sig" || s.Var == "missing-sig" {
+		verif, sigDest, modelled := "none", "-", true
+		if strings.HasPrefix(s.Var, "signed-") || s.Var == "missing-sig" {
 			sig, signet, e := signResource(table[1], id, "1.0.0")
 			if e != nil {
 				return nil, fmt.Errorf("sign: %w", e)
@@ -354,19 +384,49 @@ func build(s scn, base string) (*built, error) {
 			sp.Params["signed"] = "1"
 			sigPath := mainPath + filesig.Extension
 			extraTmp = append(extraTmp, "."+filepath.Base(sigPath))
+			sigDest = "R/dst/" + updater.GetVersionedPath(id, "1.0.0") + filesig.Extension
+			verif = "require:1"
 			switch s.Var {
 			case "signed-main":
 				also = append(also, sigPath)
 				err = writeOld(sp.Dest)
+			case "signed-tamper-require", "signed-tamper-warn":
+				// the server delivers other bytes of the same length than the ones that were signed
+				put(3, pattern(s.Seed, 3, s.NewLen))
+				sp.Params["tamper"] = "1"
+				also = append(also, sigPath)
+				err = writeOld(sp.Dest)
+				verif = "require:1"
+				if s.Var == "signed-tamper-warn" {
+					sp.Params["policy"] = "warn"
+					verif = "warn:1"
+					// policy "warn": the delivered bytes are what this download publishes
+					newObs = "f," + contentName(3, s.NewLen)
+					newIsSig = true // (name it literally: content 3)
+				}
+			case "signed-badsig-require":
+				// the signature file is garbage and the policy requires one: refused before any file is created
+				sp.Params["badsig"], sp.Params["cancel_on_sig"] = "1", "1"
+				also = append(also, sigPath)
+				err = writeOld(sp.Dest)
+				verif = "require:0"
+			case "signed-nosig-warn":
+				// no signature on the server, policy "warn": downloaded without verification, no signature file
+				sp.Params["nosig"], sp.Params["policy"] = "1", "warn"
+				also = append(also, sigPath)
+				err = writeOld(sp.Dest)
+				verif = "warn:0"
 			case "signed-sig":
 				// the destination under observation is the signature file; the resource itself is the other
 				// file this download publishes
+				modelled = false
 				also = append(also, mainPath)
 				sp.Dest = sigPath
 				oldObs, newObs = "-", "f,"+contentName(2, len(sig))
 				newIsSig = true
 			case "missing-sig":
 				// the resource is already there (complete, new content), only its signature is missing
+				modelled = false
 				if e := os.WriteFile(mainPath, table[1], 0o755); e != nil {
 					return nil, e
 				}
@@ -374,9 +434,18 @@ func build(s scn, base string) (*built, error) {
 				sp.Dest = sigPath
 				oldObs, newObs = "-", "f,"+contentName(2, len(sig))
 				newIsSig = true
+			default:
+				return nil, fmt.Errorf("unknown fetch variant %q", s.Var)
 			}
 		} else {
 			err = writeOld(sp.Dest)
+		}
+		if modelled {
+			wires, e := planWires(plan, table[1], sp.Params["tamper"] == "1")
+			if e != nil {
+				return nil, e
+			}
+			b.dlLine = fmt.Sprintf("dl api=%s verif=%s sigdest=%s wires=%s", api, verif, sigDest, wires)
 		}
 	case "file-unpack":
 		id := "a/data.bin.gz"
@@ -392,13 +461,57 @@ func build(s scn, base string) (*built, error) {
 		_, _ = zw.Write(table[1])
 		_ = zw.Close()
 		gz := buf.Bytes()
-		if s.Fail == "corrupt" && len(gz) > 8 {
-			gz[len(gz)-6] ^= 0x55 // CRC32 in the trailer: the error appears after all data has been read
+		var header, stream int
+		switch s.Fail {
+		case "-", "":
+		case "corrupt":
+			if len(gz) > 8 {
+				gz[len(gz)-6] ^= 0x55 // CRC32 in the trailer: the error appears after all data has been read
+			}
+		case "corrupt-data":
+			gz[10+(len(gz)-18)/2] ^= 0xff // inside the deflate data: flate error or a CRC mismatch at the end
+		case "truncated":
+			gz = gz[:len(gz)/2] // the archive file itself is short: unexpected EOF in the middle of the data
+		case "truncated-trailer":
+			gz = gz[:len(gz)-3] // all data present, the trailer is cut
+		case "trailing":
+			gz = append(gz, bytes.Repeat([]byte{0xEE}, 100)...) // garbage where the next member would start
+		case "badheader":
+			gz = append([]byte("NOTGZIP"), gz...)
+		default:
+			return nil, fmt.Errorf("file-unpack: unknown failure %q", s.Fail)
+		}
+		// what compress/gzip makes of the file as it is now (the model's input)
+		header, stream = 0, 0
+		var unz bytes.Buffer
+		if zr, e := gzip.NewReader(bytes.NewReader(gz)); e == nil {
+			header = 1
+			if _, e := io.Copy(&unz, zr); e == nil {
+				stream = 1
+			}
+		}
+		if !bytes.HasPrefix(table[1], unz.Bytes()) {
+			// damaged data: what the decompressor hands out before it notices is not a prefix of the resource. Name
+			// those bytes (content 1, so that chunks and whole files get the same name) and keep the real content
+			// of the resource — the only thing that may ever be published — as content 2.
+			real := table[1]
+			put(1, append([]byte(nil), unz.Bytes()...))
+			put(2, real)
+			newObs = "f," + (&canon{table: table}).content(real)
+			newIsSig = true // named literally
 		}
 		if err = os.WriteFile(gzPath, gz, 0o644); err != nil {
 			return nil, err
 		}
 		err = writeOld(sp.Dest)
+		there := 1
+		if s.Old == "absent" {
+			there = 0
+		}
+		sp.Params["gz_header"], sp.Params["gz_stream"] = strconv.Itoa(header), strconv.Itoa(stream)
+		b.upLine = fmt.Sprintf("unpack kind=gz there=%d header=%d stream=%d", there, header, stream)
+		b.progLine = fmt.Sprintf("prog gunzip tmpdir=%s optdir=R/dst/tmp mode=0 header=%d stream=%d",
+			map[string]string{"same": "R/tmp", "cross": "X", "bad": "R/missing"}[s.TmpMode], header, stream)
 	case "unpack-zip":
 		kind = "dir"
 		id := "a/pack.zip"
@@ -433,12 +546,43 @@ func build(s scn, base string) (*built, error) {
 		var buf bytes.Buffer
 		zw := zip.NewWriter(&buf)
 		var tree []string
-		for _, e := range entries {
+		var members []string
+		// the member that is made short / declared corrupt
+		target := -1
+		switch s.Fail {
+		case "short-member-first":
+			target = 0
+		case "short-member", "corrupt":
+			for ei, e := range entries {
+				if !e.dir && (len(e.data) > 1 || s.Fail == "corrupt") {
+					target = ei
+				}
+			}
+		}
+		if strings.HasPrefix(s.Fail, "short-member") && (target < 0 || len(entries[target].data) < 2) {
+			return nil, fmt.Errorf("unpack-zip: no member that can be made short")
+		}
+		for ei, e := range entries {
 			h := &zip.FileHeader{Name: e.name, Method: zip.Deflate}
 			h.SetMode(e.mode)
 			if e.dir {
 				h.SetMode(e.mode | os.ModeDir)
 				h.Method = zip.Store
+			}
+			if ei == target && strings.HasPrefix(s.Fail, "short-member") {
+				// a member whose header announces more bytes than the archive holds for it (stored, so the reader
+				// simply runs out of data): archive/zip reports io.ErrUnexpectedEOF after the bytes that are there
+				h.Method = zip.Store
+				h.UncompressedSize64 = uint64(len(e.data))
+				h.CompressedSize64 = uint64(len(e.data) / 2)
+				h.CRC32 = crc32.ChecksumIEEE(e.data)
+				w, e2 := zw.CreateRaw(h)
+				if e2 != nil {
+					return nil, e2
+				}
+				_, _ = w.Write(e.data[:len(e.data)/2])
+				tree = append(tree, e.name+"|f,"+(&canon{table: table}).content(e.data))
+				continue
 			}
 			w, e2 := zw.CreateHeader(h)
 			if e2 != nil {
@@ -459,6 +603,36 @@ func build(s scn, base string) (*built, error) {
 				zb[i-20] ^= 0x5a
 			}
 		}
+		if s.Fail == "truncated-zip" {
+			zb = zb[:len(zb)/2] // no central directory: zip.OpenReader fails
+		}
+		// what archive/zip makes of the archive as it is now (the model's input): does it open, and per file member
+		// how many bytes its reader delivers and whether it ends with an error
+		opens := 1
+		members = members[:0]
+		if zr, e := zip.NewReader(bytes.NewReader(zb), int64(len(zb))); e != nil {
+			opens = 0
+		} else {
+			for _, zf := range zr.File {
+				if zf.FileInfo().IsDir() {
+					continue
+				}
+				n, merr := int64(0), 1
+				if rc, e := zf.Open(); e == nil {
+					var ce error
+					n, ce = io.Copy(io.Discard, rc)
+					_ = rc.Close()
+					if ce == nil {
+						merr = 0
+					}
+				}
+				members = append(members, fmt.Sprintf("%d:%d", n, merr))
+			}
+		}
+		if s.Old != "absent" {
+			opens = 0 // the destination exists (unpacked already, or blocked by a file): the archive is not even opened
+		}
+		b.upLine = fmt.Sprintf("unpack kind=zip opens=%d members=%s", opens, strings.Join(members, ","))
 		if err = os.WriteFile(zipPath, zb, 0o644); err != nil {
 			return nil, err
 		}
@@ -552,7 +726,11 @@ func (b *built) cleanup() {
 // runOut is one executed (traced, possibly killed) run.
 type runOut struct {
 	res      *TraceResult
+	big      *bigOut // untraced big-member run (bigzip.go)
 	destLine string
+	dlLine   string
+	upLine   string
+	progLine string
 	oldObs   string
 	newObs   string
 	err      string
@@ -560,6 +738,9 @@ type runOut struct {
 
 // execute builds the scenario, runs the tracer process on it and removes the sandbox.
 func execute(s scn, base string) *runOut {
+	if s.Writer == "unpack-zip-big" {
+		return executeBig(s)
+	}
 	b, err := build(s, base)
 	if b != nil {
 		defer b.cleanup()
@@ -592,7 +773,7 @@ func execute(s scn, base string) *runOut {
 	if err := json.Unmarshal(out, tr); err != nil {
 		return &runOut{err: "tracer output: " + err.Error()}
 	}
-	ro := &runOut{res: tr, destLine: b.destLine, oldObs: b.oldObs, newObs: b.newObs}
+	ro := &runOut{res: tr, destLine: b.destLine, dlLine: b.dlLine, upLine: b.upLine, progLine: b.progLine, oldObs: b.oldObs, newObs: b.newObs}
 	if tr.Error != "" {
 		ro.err = "trace: " + tr.Error
 	}
